@@ -88,6 +88,15 @@ thread_local! {
 pub struct GlobalEnable;
 
 impl<T: tracing::Subscriber> tracing_subscriber::Layer<T> for GlobalEnable {
+    fn register_callsite(
+        &self,
+        _metadata: &'static tracing::Metadata<'static>,
+    ) -> tracing::subscriber::Interest {
+        // the answer depends on mutable, partly thread-local state: it must be asked for
+        // every event and never be cached per call site
+        tracing::subscriber::Interest::sometimes()
+    }
+
     fn enabled(
         &self,
         _metadata: &tracing::Metadata<'_>,
